@@ -25,6 +25,8 @@ structure DS where
   gids : List (Nat × Nat)     -- model call id ↦ harness call number (wd: calls run in observed order)
   lens : List (Nat × Nat)     -- harness call number ↦ fragments
   nextGid : Nat
+  path : String := ""          -- e2e: the sampled upgrade path
+  epoll : String := ""         -- e2e: lt | et | etos
 
 def cbName (j : Nat) : String :=
   if j == WsCb.jobOpen then "open" else if j == WsCb.jobClose then "close" else s!"m{j - 2}"
@@ -73,7 +75,8 @@ partial def loop (h : IO.FS.Stream) (d : DS) : IO Unit := do
     let mode := if kind == "cb" then Mode.cb else if kind == "wq" then .wq else if kind == "wd" then .wd
                 else if kind == "e2e" then .e2e else .none
     let g : SendQ.Cfg := { queued := kind == "wq", bound := num "bound", reserve := (Drv.field ws "tree").getD "fixed" != "pinned" }
-    loop h { mode, holdExec := num "holdexec" == 1, cb := WsCb.init, g, sq := SendQ.init, maxf := num "maxframe", gids := [], lens := [], nextGid := 0 }
+    loop h { mode, holdExec := num "holdexec" == 1, cb := WsCb.init, g, sq := SendQ.init, maxf := num "maxframe", gids := [], lens := [], nextGid := 0,
+             path := (Drv.field ws "path").getD "", epoll := (Drv.field ws "mode").getD "lt" }
   | _ =>
   match d.mode, ws with
   | .cb, ["O", "upgrade"] =>
@@ -169,7 +172,14 @@ partial def loop (h : IO.FS.Stream) (d : DS) : IO Unit := do
     let g : SendQ.Cfg := { queued := false, bound := 0, reserve := true }
     let sq := SendQ.run g SendQ.init (List.replicate writers (.write (nfrag size 32768) none))
     let whole := if sq.wire == SendQ.wholeGroups sq.okCalls then 1 else 0
-    IO.println s!"R log={log} groups={sq.okCalls.length} whole={whole}"
+    -- the executor Upgrade installs: the decision table, on the scenario the sampled path runs through
+    let (sc, hasParser) : WsCb.Scenario × Bool :=
+      if d.path == "poller" then (.s1, true) else if d.path == "blockparser" then (.s3_2, true)
+      else if d.path == "transfer" then (.s3_1, false) else (.s3_2, false)
+    let em : WsCb.EpollMode := if d.epoll == "etos" then .etOneshot else if d.epoll == "et" then .et else .lt
+    let ex := match WsCb.execOf sc em hasParser with
+      | .connQueue => "queue" | .sync => "sync" | .none => "none"
+    IO.println s!"R log={log} groups={sq.okCalls.length} whole={whole} exec={ex}"
     loop h d
   | _, _ => IO.println "bad-op"; loop h d
 
